@@ -383,7 +383,10 @@ def regenerate(root):
     a = _write_if_changed(os.path.join(GEN, "Wirings.lean"), data)
     b = _write_if_changed(os.path.join(GEN, "WiringsSound.lean"), thm)
     c = _write_if_changed(os.path.join(GEN, "ModeWirings.lean"), lean_mode_file(ws))
-    return {"configs": len(ws), "changed": a or b or c}
+    # pool sizes vs demand bounds per shipped configuration (JF/Gen/Pools.lean, obligations of JF.Props.C09Pools)
+    from harness import translate_pools
+    d = translate_pools.regenerate(root)
+    return {"configs": len(ws), "changed": a or b or c or d["changed"]}
 
 
 if __name__ == "__main__":
